@@ -19,6 +19,23 @@ CHECKS = {
    text="search routines return None/input or a valid colour within the symbolic tolerance given; strict mode <= 5.0; modes 1/2 satisfy the REACH(3.0) chain invariant "
         "(resp. REACH or <= 15.0). DE is the CIEDE2000 symbol fixed by C11.",
    note=TB + "assumes C11 (DE is CIEDE2000, 0 for identical colours), C06 read-back.", ref='§8 C04'),
+ 'C03': dict(cat='exploration', tech='bounded run-time contract on the real make_readable with an independent witness oracle (stand-in: the existential precondition over transcendental float pipelines is outside what contracts + the installed solvers can decide)',
+   text="NOT proved: for generated pairs on which an independent exhaustive scan of the text's lightness line finds a witness (within CIEDE2000 1.5, clearing min+0.05), every mode must succeed and stay within 2.0. "
+        "Quick ~950 witnessed cases x 3 modes, thorough ~35,000 x 3. Two genuine defects found this way were repaired (see known_findings.json).",
+   note="oracles in /verif/oracles (float64), 0.01 dE slack; bounded to the generated cases and seeds.", ref='§8 C03, §9'),
+ 'C08': dict(cat='other', tech='bounded run-time contract: the real click command on an enumerated stylesheet corpus judged by independent oracles (engine E) + dataflow-structural obligations on the real AST of the per-rule logic (engine C)',
+   text="the file-level clause quantifies over stylesheets as interpreted by tinycss2 (a proof would be about a model of that library): checked on a generated corpus (every colour spelling, custom properties chained / with "
+        "fallback / undefined / shared, !important, repeated declarations, nesting <= 3, carry-through constructs, threshold-band pairs) x settings; counts vs an independent per-rule classification, report vs written file vs "
+        "Python API vs WCAG oracle. The readable decision, the fix call and the write-back/failed branches are pinned on the AST by dataflow. Two defects repaired, two recorded as known findings.",
+   note="tinycss2 as trusted reader; bounded to the corpus; known findings matched by (failure kind | trigger).", ref='§8 C08'),
+ 'C09': dict(cat='other', tech='frame proof by the effect checker on the real ASTs + z3 string lemma (engine C) for the files touched; bounded structural diff of input vs output on a stylesheet corpus (engine E)',
+   text="proved: the only writes of the package are open(output_path,'w') in main / generate_report / to_html_bulk, output_path = parent/(stem+'_cm'+suffix) assigned once, the report path is the literal default, the only read is the "
+        "input file, and stem+'_cm'+suffix != stem+suffix for all strings - so inputs are never opened for writing and nothing else is created. Bounded: rules / at-rules / comments / declarations preserved in order on the corpus.",
+   note="click, tinycss2, rich assumed not to write files; tinycss2 trusted for the diff.", ref='§8 C09'),
+ 'C18': dict(cat='other', tech='structural obligations on the real ASTs of get_css_files and main (engine C) + bounded directory-tree runs of the real command (engine E)',
+   text="proved on the AST: the _cm.css guard dominates every directory-branch yield; the per-file loop body is one try/except Exception whose handler cannot leave the loop; per-file state is rebound inside the loop; "
+        "no cross-file names are read. Bounded: generated trees with every fault kind, each output byte-compared with the single-file run, run twice.",
+   note="file system and click are external; unreadable files cannot be produced as root.", ref='§8 C18'),
  'C05': dict(cat='proof', tech='formula conformance by ring-normal-form proof over the real AST (engine B) + Float64 SMT proof of the labels (engine A) + exhaustive numeric closure (engine D)',
    text="luminance and contrast ratio: code == WCAG spec as exact-rational polynomial normal forms over the real ASTs (all real inputs; 0.03928 vs 0.04045 proved equivalent on 8-bit channels), symmetry / range / extremes as "
         "real-arithmetic lemmas; labels: get_contrast_level == LEVEL for EVERY double in z3's FP theory, get_wcag_level, is_readable strings by engine A. Float rounding is closed numerically by engine D: 256-value table, all "
@@ -78,9 +95,9 @@ man = {
  'engines': [
    {'name': 'A pyvc', 'path': 'vf/symex.py', 'serves_properties': ['C01', 'C02', 'C04', 'C16'], 'kind_free_text': 'AST -> verification conditions, modular contracts, z3/cvc5'},
    {'name': 'B ringconf', 'path': 'vf/ring.py', 'serves_properties': ['C05', 'C10', 'C11'], 'kind_free_text': 'code == published formula as commutative-ring normal forms over uninterpreted atoms; path matching in z3 QF_LIRA'},
-   {'name': 'C effects', 'path': 'vf/effects.py', 'serves_properties': ['C15', 'C17', 'C19'], 'kind_free_text': 'modular frame/effect checker and HTML provenance analysis over the real ASTs'},
+   {'name': 'C effects', 'path': 'vf/effects.py', 'serves_properties': ['C08', 'C09', 'C15', 'C17', 'C18', 'C19'], 'kind_free_text': 'modular frame/effect checker and HTML provenance analysis over the real ASTs'},
    {'name': 'D fdx', 'path': 'vf/fdx.py', 'serves_properties': ['C01', 'C05', 'C06', 'C11'], 'kind_free_text': 'exhaustive evaluation of the real functions on finite colour domains (16 processes)'},
-   {'name': 'E rtc', 'path': 'vf/rtc.py', 'serves_properties': ['C01', 'C02', 'C04', 'C06', 'C16'], 'kind_free_text': 'bounded run-time contracts on the real functions with independent oracles (never counted as proved)'},
+   {'name': 'E rtc', 'path': 'vf/rtc.py', 'serves_properties': ['C01', 'C02', 'C03', 'C04', 'C06', 'C08', 'C09', 'C12', 'C16', 'C18'], 'kind_free_text': 'bounded run-time contracts on the real functions with independent oracles (never counted as proved)'},
  ],
  'checks': checks,
  'not_applicable': [{'property_id': p, 'reason': NA_REASON.get(p, PENDING)} for p in ALL if p not in CHECKS],
